@@ -18,7 +18,6 @@ Self test: ``cd /verif && PYTHONPATH=/repo:/verif /venv/bin/python harness/build
 from __future__ import annotations
 
 import contextlib
-import copy
 import functools
 import io as _io
 import logging
@@ -31,11 +30,11 @@ import numpy as np
 
 __all__ = [
     "AtomRec", "definitions", "template", "template_names", "is_hydrogen_name",
-    "build_peptide", "build_strand", "waters", "ring_peptide", "disulfide_pair",
+    "build_peptide", "build_strand", "waters", "ring_peptide", "relax_sidechains", "disulfide_pair",
     "pack_against", "to_pdb", "to_cif", "rigid", "random_rotation", "delete_atoms",
     "renumber", "set_chain", "set_resname", "reserial", "coords", "residues_of",
     "place", "kabsch", "dihedral", "angle", "min_distance", "geometry_report",
-    "expected_atom_names", "run_pdb2pqr", "setup_biomolecule", "STANDARD_AA",
+    "expected_atom_names", "expected_names_for", "run_pdb2pqr", "parse_pqr", "capture_pdb2pqr_log", "template_bonds", "setup_biomolecule", "STANDARD_AA",
     "VARIANT_AA", "DNA", "RNA",
 ]
 
@@ -296,24 +295,36 @@ def template_bonds(name: str) -> dict[str, list[str]]:
 _ALT_HYDROGENS = {"ASH": ("HD1",), "GLH": ("HE1",)}
 
 
-def expected_atom_names(resname: str, *, nterm: bool = False, cterm: bool = False):
+def expected_atom_names(resname: str, *, nterm: bool = False, cterm: bool = False,
+                        five_prime: bool = False, three_prime: bool = False,
+                        phosphate_names: str = "OP"):
     """(required, optional) atom-name sets of the FINISHED residue as pdb2pqr
     should emit it for a heavy-atom-complete input of that residue name.
 
     required <= names <= required | optional.  Optional covers states the
-    hydrogen optimisation picks (HIS tautomer, ASH/GLH proton side) and the
-    imino H of an N-terminal PRO (template NPRO lists H,H2,H3; two are kept).
+    hydrogen optimisation picks (HIS tautomer, ASH/GLH proton side).  An
+    N-terminal PRO ends with H and H2 (NPRO lists H3 too, but it coincides
+    with CD and pdb2pqr never builds it).  Nucleotides: A/C/G/U mean RA..RU;
+    the 5' one loses P/O1P/O2P and gains H5T, the 3' one gains H3T; pdb2pqr
+    keeps whichever of OP1/OP2 or O1P/O2P it was given (phosphate_names).
     """
     if resname in ("HOH", "WAT"):
         return {"O", "H1", "H2"}, set()
+    dmap = definitions().map
+    if resname not in dmap or "CA" not in dmap[resname].map:
+        names = set(template(_na_template_name(resname, True)))
+        if five_prime:
+            names = (names - {"P", "O1P", "O2P"}) | {"H5T"}
+        if three_prime:
+            names |= {"H3T"}
+        if phosphate_names == "OP":
+            names = {{"O1P": "OP1", "O2P": "OP2"}.get(n, n) for n in names}
+        return names, set()
     names = set(template(resname))
     optional: set[str] = set()
-    base = definitions().map[resname].name
+    base = dmap[resname].name
     if nterm:
-        names |= {"H", "H2", "H3"} if base != "PRO" else {"H2", "H3"}
-        if base == "PRO":
-            optional |= {"H"}
-            names -= {"H"}
+        names |= {"H", "H2"} if base == "PRO" else {"H", "H2", "H3"}
     if cterm:
         names |= {"OXT"}
     if resname == "HIS":
@@ -324,6 +335,32 @@ def expected_atom_names(resname: str, *, nterm: bool = False, cterm: bool = Fals
         names -= pair
         optional |= pair
     return names, optional
+
+
+def expected_names_for(atoms: Sequence[AtomRec], *, cyclic_chains: Sequence[str] = ()) -> list:
+    """[(required, optional)] for every residue of a built structure, in input
+    order: termini are the first/last polymer residue of each chain ID (none
+    for chains listed in cyclic_chains), waters get O/H1/H2."""
+    res = residues_of(atoms)
+    dmap = definitions().map
+    by_chain: dict[str, list[int]] = {}
+    for k, r in enumerate(res):
+        if r[0].resname not in ("HOH", "WAT"):
+            by_chain.setdefault(r[0].chain, []).append(k)
+    out = []
+    for k, r in enumerate(res):
+        rn, ch = r[0].resname, r[0].chain
+        if rn in ("HOH", "WAT"):
+            out.append(expected_atom_names(rn))
+            continue
+        first = by_chain[ch][0] == k and ch not in cyclic_chains
+        last = by_chain[ch][-1] == k and ch not in cyclic_chains
+        if rn in dmap and "CA" in dmap[rn].map:
+            out.append(expected_atom_names(rn, nterm=first, cterm=last))
+        else:
+            opn = "O_P" if any(a.name in ("O1P", "O2P") for a in r) else "OP"
+            out.append(expected_atom_names(rn, five_prime=first, three_prime=last, phosphate_names=opn))
+    return out
 
 
 # ---------------------------------------------------------------------------
@@ -377,6 +414,7 @@ def build_peptide(
     helix: bool = False,
     pro_phi: float | None = None,
     icode: str = "",
+    relax: bool = True,
     _start_frame=None,
 ) -> list[AtomRec]:
     """Build a peptide from the definition templates.
@@ -392,6 +430,10 @@ def build_peptide(
               hydrogens too (amide H re-placed in the peptide plane; N-terminal
               H/H2/H3 when nterm_h; no carboxyl H).
     origin    position of the first CA; rotation: 3x3 applied about that CA.
+    relax     (default) run relax_sidechains(min_sep=2.5) on the result: a no-op
+              for extended chains (they never clash), needed for helices with
+              bulky i/i+3/i+4 neighbours.  relax=False guarantees that every
+              residue is an exact rigid copy of its template.
     cterm_oxt add OXT to the last residue (C-OXT 1.25, CA-C-OXT 117, torsion
               N-CA-C-OXT = psi; O sits at psi+180).
 
@@ -441,7 +483,8 @@ def build_peptide(
                 xyz.pop("H", None)
                 if nterm_h:
                     nt = definitions().patches["NTERM"].map
-                    hs = ("H2", "H3") if dmap[name].name == "PRO" else ("H", "H2", "H3")
+                    # N-terminal PRO keeps H and H2 (the patch's H3 sits on CD)
+                    hs = ("H", "H2") if dmap[name].name == "PRO" else ("H", "H2", "H3")
                     for hn in hs:
                         p = np.array([nt[hn].x, nt[hn].y, nt[hn].z], float)
                         xyz[hn] = R @ p + t
@@ -468,86 +511,271 @@ def build_peptide(
     first_ca = next(a for a in out if a.name == "CA").xyz
     R = np.eye(3) if rotation is None else np.asarray(rotation, float)
     out = [a.at(R @ (a.xyz - first_ca) + np.asarray(origin, float)) for a in out]
+    if relax:
+        out = relax_sidechains(out, min_sep=2.5)
     return reserial(out)
+
+
+# --- side-chain relaxation ----------------------------------------------------
+
+
+def _far_side(bonds: dict[str, list[str]], a: str, b: str):
+    """Atom names on b's side of the bond a-b (None if a-b is in a ring)."""
+    seen, todo = {b}, [b]
+    while todo:
+        x = todo.pop()
+        for y in bonds.get(x, ()):
+            if x == b and y == a:
+                continue
+            if y == a:
+                return None
+            if y not in seen and y not in _PSEUDO:
+                seen.add(y)
+                todo.append(y)
+    return seen
+
+
+def relax_sidechains(atoms: Sequence[AtomRec], *, min_sep: float = 2.5, rounds: int = 3) -> list[AtomRec]:
+    """Relieve side-chain clashes by rigid rotations about CA-CB (chi1: +0,
+    +120, +240 degrees from the template) and CB-CG* (chi2: six 60-degree
+    offsets).  A residue is touched only if one of its gamma-or-further heavy
+    atoms is closer than min_sep to a heavy atom of another residue; the
+    combination with the largest clearance (other residues, and own backbone
+    N/C/O for delta-or-further atoms) is kept.  Deterministic; backbone, CB,
+    PRO rings and disulfide-bonded CYS are never moved.  The default extended
+    build never needs this; helices with bulky i/i+3/i+4 neighbours do."""
+    atoms = list(atoms)
+    X = coords(atoms)
+    res_idx: list[list[int]] = []
+    key = None
+    for i, a in enumerate(atoms):
+        if key != a.reskey or not res_idx:
+            res_idx.append([])
+            key = a.reskey
+        res_idx[-1].append(i)
+    heavy = np.array([not a.is_hydrogen for a in atoms])
+    owner = np.empty(len(atoms), dtype=int)
+    for r, idx in enumerate(res_idx):
+        owner[idx] = r
+    dmap = definitions().map
+    sg = [i for i, a in enumerate(atoms) if a.name == "SG"]
+    bonded_sg = {i for i in sg for j in sg if i != j and np.linalg.norm(X[i] - X[j]) < 2.5}
+    plans = []
+    for r, idx in enumerate(res_idx):
+        rn = atoms[idx[0]].resname
+        nm = {atoms[i].name: i for i in idx}
+        if rn not in dmap or "CA" not in nm or "CB" not in nm or any(i in bonded_sg for i in idx):
+            plans.append(None)
+            continue
+        bonds = template_bonds(rn)
+        for extra in ("OXT",):
+            if extra in nm:
+                bonds = {**bonds, extra: ["C"], "C": bonds.get("C", []) + [extra]}
+        for hn in ("H2", "H3"):
+            if hn in nm and hn not in bonds:
+                bonds = {**bonds, hn: ["N"], "N": bonds.get("N", []) + [hn]}
+        side1 = _far_side(bonds, "CA", "CB")
+        if side1 is None:
+            plans.append(None)
+            continue
+        gammas = [g for g in bonds.get("CB", ()) if not is_hydrogen_name(g) and g != "CA" and g in nm]
+        chi2 = None
+        for g in gammas:  # first gamma that carries further heavy atoms
+            far = _far_side(bonds, "CB", g)
+            if far and any(not is_hydrogen_name(x) and x != g for x in far):
+                chi2 = (g, far)
+                break
+        mov1 = [nm[x] for x in side1 if x in nm and x != "CB"]
+        mov2 = [nm[x] for x in chi2[1] if x in nm and x != chi2[0]] if chi2 else []
+        if not any(heavy[i] for i in mov1):
+            plans.append(None)
+            continue
+        plans.append((nm, mov1, chi2[0] if chi2 else None, mov2))
+
+    def clearance(r, P):
+        """min distance of residue r's gamma+ heavy atoms (coords P for its
+        atoms) to other residues, and of delta+ atoms to own backbone."""
+        nm, mov1, g2, mov2 = plans[r]
+        mh = [i for i in mov1 if heavy[i]]
+        others = heavy & (owner != r)
+        if not others.any():
+            inter = math.inf
+        else:
+            d = P[mh][:, None, :] - X[others][None, :, :]
+            inter = float(np.sqrt((d * d).sum(axis=2)).min())
+        deep = [i for i in mov2 if heavy[i]]
+        bb = [nm[x] for x in ("N", "C", "O", "OXT") if x in nm]
+        if deep and bb:
+            d = P[deep][:, None, :] - P[bb][None, :, :]
+            inter = min(inter, float(np.sqrt((d * d).sum(axis=2)).min()))
+        return inter
+
+    for _ in range(rounds):
+        changed = False
+        for r, plan in enumerate(plans):
+            if plan is None or clearance(r, X) >= min_sep:
+                continue
+            nm, mov1, g2, mov2 = plan
+            best = (clearance(r, X), None)
+            base = X.copy()
+            for d1 in (0.0, 120.0, 240.0):
+                P1 = base.copy()
+                if d1:
+                    R = _rot_axis(base[nm["CB"]] - base[nm["CA"]], d1)
+                    P1[mov1] = (base[mov1] - base[nm["CB"]]) @ R.T + base[nm["CB"]]
+                for d2 in ((0.0, 120.0, 240.0, 180.0, 60.0, 300.0) if g2 else (0.0,)):
+                    P = P1
+                    if d2:
+                        P = P1.copy()
+                        R = _rot_axis(P1[nm[g2]] - P1[nm["CB"]], d2)
+                        P[mov2] = (P1[mov2] - P1[nm[g2]]) @ R.T + P1[nm[g2]]
+                    c = clearance(r, P)
+                    if c > best[0] + 1e-9 and (best[0] < min_sep):
+                        best = (c, P)
+                    if best[0] >= min_sep:
+                        break
+                if best[0] >= min_sep:
+                    break
+            if best[1] is not None:
+                X = best[1].copy()
+                changed = True
+        if not changed:
+            break
+    return [a.at(X[i]) for i, a in enumerate(atoms)]
 
 
 # --- cyclic peptides --------------------------------------------------------
 
 
-def _screw(phi: float, psi: float, omega: float = 180.0):
-    """(rise, twist in degrees) of the helix generated by uniform phi/psi with
-    the templates' shared backbone geometry."""
+@functools.lru_cache(maxsize=1)
+def _bb_geom():
     tpl = template("ALA", hydrogens=False)
-    d_nca, d_cac, a_ncac = _backbone_internal(tpl)
-    n0, ca0, c0 = tpl["N"], tpl["CA"], tpl["C"]
-    n1 = place(n0, ca0, c0, PEPTIDE_CN, ANGLE_CA_C_N, psi)
-    ca1 = place(ca0, c0, n1, d_nca, ANGLE_C_N_CA, omega)
-    c1 = place(c0, n1, ca1, d_cac, a_ncac, phi)
-    R, t = kabsch([n0, ca0, c0], [n1, ca1, c1])
+    return (tuple(tpl["N"]), tuple(tpl["CA"]), tuple(tpl["C"])) + _backbone_internal(tpl)
+
+
+def _frame(n, ca, c):
+    e1 = _unit(ca - n)
+    v = c - ca
+    e2 = _unit(v - np.dot(v, e1) * e1)
+    return np.column_stack([e1, e2, np.cross(e1, e2)])
+
+
+def _screw(phis: Sequence[float], psis: Sequence[float], omega: float = 180.0):
+    """(rise in A, twist in degrees) of the helix obtained by repeating a unit
+    of k residues with torsions phis[j], psis[j] (templates' shared backbone
+    geometry, ideal peptide link)."""
+    k = len(phis)
+    tn, tca, tc, d_nca, d_cac, a_ncac = _bb_geom()
+    n0, ca0, c0 = np.array(tn), np.array(tca), np.array(tc)
+    f0, o0 = _frame(n0, ca0, c0), ca0
+    for j in range(k):
+        n1 = place(n0, ca0, c0, PEPTIDE_CN, ANGLE_CA_C_N, psis[j])
+        ca1 = place(ca0, c0, n1, d_nca, ANGLE_C_N_CA, omega)
+        c1 = place(c0, n1, ca1, d_cac, a_ncac, phis[(j + 1) % k])
+        n0, ca0, c0 = n1, ca1, c1
+    R = _frame(n0, ca0, c0) @ f0.T
+    t = ca0 - R @ o0
     th = math.acos(max(-1.0, min(1.0, (np.trace(R) - 1.0) / 2.0)))
     ax = np.array([R[2, 1] - R[1, 2], R[0, 2] - R[2, 0], R[1, 0] - R[0, 1]])
-    if np.linalg.norm(ax) < 1e-12:
-        return float(np.linalg.norm(t)), 0.0
-    ax = _unit(ax)
-    return float(np.dot(t, ax)), math.degrees(th)
+    if np.linalg.norm(ax) < 1e-9:
+        return float(np.linalg.norm(t)), math.degrees(th)
+    return float(np.dot(t, _unit(ax))), math.degrees(th)
 
 
-@functools.lru_cache(maxsize=64)
+def _newton2(f, p, iters: int = 14, tol: float = 1e-10):
+    p = np.array(p, float)
+    for _ in range(iters):
+        v = f(p)
+        if np.linalg.norm(v) < tol:
+            return p
+        h = 1e-4
+        J = np.column_stack([(f(p + np.array([h, 0.0])) - v) / h, (f(p + np.array([0.0, h])) - v) / h])
+        try:
+            step = np.linalg.solve(J, -v)
+        except np.linalg.LinAlgError:
+            return None
+        nrm = np.linalg.norm(step)
+        if not np.isfinite(nrm):
+            return None
+        if nrm > 20.0:
+            step *= 20.0 / nrm
+        p = p + step
+    return p if np.linalg.norm(f(p)) < tol else None
+
+
+_RING_PHI = (-160, -120, -80, -50, 60, 120)
+
+
+@functools.lru_cache(maxsize=32)
 def _ring_solutions(n: int) -> tuple:
-    """All (phi, psi) with zero helical rise and twist 360/n (so that n
-    residues close head to tail exactly), found by grid start + Newton."""
-    target = 360.0 / n
+    """Backbone torsion patterns ((phis), (psis)) of a repeat unit of k = 1 or
+    2 residues whose helix has zero rise and twist 360 k / n, so that n
+    residues close head to tail exactly.  k = 1 (uniform phi/psi) exists only
+    for n <= 5 with trans peptides; even n >= 6 use an alternating A/B unit
+    (phi_A, phi_B from _RING_PHI, psi_A, psi_B solved by Newton)."""
+    sols: list[tuple[tuple, tuple]] = []
 
-    def f(p):
-        r, tw = _screw(p[0], p[1])
-        return np.array([r, (tw - target) / 30.0])
+    def add(phis, psis):
+        key = tuple(round(_wrap(x), 3) for x in (*phis, *psis))
+        for q in sols:
+            if all(abs(_wrap(a - b)) < 0.05 for a, b in zip(key, (*q[0], *q[1]))):
+                return
+        sols.append((tuple(_wrap(x) for x in phis), tuple(_wrap(x) for x in psis)))
 
-    sols: list[tuple[float, float]] = []
-    for p0 in range(-175, 180, 25):
-        for s0 in range(-175, 180, 25):
-            p = np.array([float(p0), float(s0)])
-            ok = False
-            for _ in range(40):
-                v = f(p)
-                if np.linalg.norm(v) < 1e-11:
-                    ok = True
-                    break
-                h = 1e-4
-                J = np.column_stack(
-                    [(f(p + np.array([h, 0.0])) - v) / h, (f(p + np.array([0.0, h])) - v) / h]
-                )
-                try:
-                    step = np.linalg.solve(J, -v)
-                except np.linalg.LinAlgError:
-                    break
-                nrm = np.linalg.norm(step)
-                if nrm > 20.0:
-                    step *= 20.0 / nrm
-                p = p + step
-            if ok:
-                q = (round(_wrap(p[0]), 6), round(_wrap(p[1]), 6))
-                if not any(abs(_wrap(q[0] - s[0])) < 1e-3 and abs(_wrap(q[1] - s[1])) < 1e-3 for s in sols):
-                    sols.append((_wrap(p[0]), _wrap(p[1])))
+    if 360.0 / n >= 60.0:  # uniform
+        target = 360.0 / n
+
+        def f1(p):
+            r, tw = _screw((p[0],), (p[1],))
+            return np.array([r, (tw - target) / 30.0])
+
+        for p0 in range(-150, 180, 60):
+            for s0 in range(-150, 180, 60):
+                p = _newton2(f1, (p0, s0))
+                if p is not None:
+                    add((p[0],), (p[1],))
+    if not sols and n % 2 == 0 and n >= 6:
+        target = 720.0 / n
+        for pa in _RING_PHI:
+            for pb in _RING_PHI:
+
+                def f2(q, pa=pa, pb=pb):
+                    r, tw = _screw((pa, pb), (q[0], q[1]))
+                    return np.array([r, (tw - target) / 30.0])
+
+                for s0 in (-90, 90):
+                    for s1 in (-90, 90):
+                        q = _newton2(f2, (s0, s1))
+                        if q is not None:
+                            add((pa, pb), (q[0], q[1]))
     return tuple(sorted(sols))
 
 
 def ring_peptide(seq: Sequence[str], *, chain: str = "A", start: int = 1,
                  hydrogens: bool = False, origin=(0.0, 0.0, 0.0), rotation=None,
                  solution: int | None = None) -> list[AtomRec]:
-    """Head-to-tail cyclic peptide: uniform (phi, psi) solved so that the
-    backbone helix has zero rise and 360/n twist; C(last)-N(first) is then a
-    regular 1.33 A peptide bond (pdb2pqr's cyclic test is < 1.35 A) and no
-    OXT is written.  PRO keeps the uniform phi (ring slightly strained).
-    Among the solutions the one with the largest minimum inter-residue
-    heavy-atom distance is used unless `solution` selects one.  Raises
-    ValueError when no closure exists (small n)."""
-    n = len(seq)
-    sols = _ring_solutions(n)
-    if not sols:
-        raise ValueError(f"no ring closure found for {n} residues")
+    """Head-to-tail cyclic peptide (n = 3..5 or even n >= 6).
 
-    def build(ps):
-        return build_peptide(seq, chain=chain, start=start, phi=[ps[0]] * n, psi=[ps[1]] * n,
+    The backbone torsions repeat with period 1 (n <= 5) or 2 (even n) and are
+    solved so that the generated helix has zero rise and closes after n
+    residues: C(last)-N(first) is then a regular 1.33 A trans peptide bond
+    (pdb2pqr's cyclic test in assign_termini is < 1.35 A).  No OXT is written.
+    Among all solutions the one with the largest minimum non-bonded
+    inter-residue heavy-atom distance for THIS sequence is used unless
+    `solution` picks an index of _ring_solutions(n).  phi is imposed on PRO as
+    on every other residue (its ring N is then slightly pyramidal).
+    Raises ValueError when no closure exists (odd n >= 7, n < 3)."""
+    n = len(seq)
+    sols = _ring_solutions(n) if n >= 3 else ()
+    if not sols:
+        raise ValueError(f"ring_peptide: no closed backbone for {n} residues "
+                         "(supported: 3..5 and even n >= 6)")
+
+    def build(sol):
+        phis, psis = sol
+        k = len(phis)
+        return build_peptide(seq, chain=chain, start=start,
+                             phi=[phis[i % k] for i in range(n)], psi=[psis[i % k] for i in range(n)],
                              hydrogens=hydrogens, origin=origin, rotation=rotation,
                              cterm_oxt=False, nterm_h=False)
 
@@ -555,28 +783,26 @@ def ring_peptide(seq: Sequence[str], *, chain: str = "A", start: int = 1,
         atoms = build(sols[solution])
     else:
         best = None
-        for ps in sols:
-            cand = build(ps)
-            score = geometry_report(cand, cyclic=True)["min_interresidue"]
+        for sol in sols:
+            cand = build(sol)
+            score = geometry_report(cand, cyclic=True)["min_nonbonded"]
             if best is None or score > best[0] + 1e-9:
                 best = (score, cand)
         atoms = best[1]
     if hydrogens:
-        # first residue's amide H: in plane, trans to the closing C
+        # first residue's amide H: in the peptide plane, trans to the closing C
         res = residues_of(atoms)
-        last_c = next(a for a in res[-1] if a.name == "C").xyz
         f = {a.name: a for a in res[0]}
-        if "N" in f and "CA" in f and definitions().map[f["N"].resname].map.get("H") is not None:
-            tpl = template(f["N"].resname)
-            if "H" in tpl:
-                h = place(f["C"].xyz, f["CA"].xyz, f["N"].xyz,
-                          float(np.linalg.norm(tpl["H"] - tpl["N"])),
-                          angle(tpl["CA"], tpl["N"], tpl["H"]),
-                          _wrap(dihedral(last_c, f["N"].xyz, f["CA"].xyz, f["C"].xyz) + 180.0))
-                hrec = replace(f["N"], name="H", element="H").at(h)
-                idx = max(i for i, a in enumerate(atoms) if a.reskey == f["N"].reskey)
-                atoms = atoms[: idx + 1] + [hrec] + atoms[idx + 1:]
-                atoms = reserial(atoms)
+        tpl = template(f["N"].resname)
+        if "H" in tpl and "H" not in f:
+            last_c = next(a for a in res[-1] if a.name == "C").xyz
+            phi0 = dihedral(last_c, f["N"].xyz, f["CA"].xyz, f["C"].xyz)
+            h = place(f["C"].xyz, f["CA"].xyz, f["N"].xyz,
+                      float(np.linalg.norm(tpl["H"] - tpl["N"])),
+                      angle(tpl["CA"], tpl["N"], tpl["H"]), _wrap(phi0 + 180.0))
+            hrec = replace(f["N"], name="H", element="H").at(h)
+            idx = max(i for i, a in enumerate(atoms) if a.reskey == f["N"].reskey)
+            atoms = reserial(atoms[: idx + 1] + [hrec] + atoms[idx + 1:])
     return atoms
 
 
@@ -615,8 +841,8 @@ def build_strand(
     five_prime_phosphate: bool = False,
     resnames: str = "pdb",
     phosphate_names: str = "OP",
-    epsilon: float = -169.0,
-    zeta: float = -108.0,
+    epsilon: float = -135.0,
+    zeta: float = 165.0,
     origin=(0.0, 0.0, 0.0),
     rotation=None,
     icode: str = "",
@@ -633,7 +859,11 @@ def build_strand(
            5TERM patch deletes them anyway).
     Nucleotide i+1 is the rigid template placed so that its P is bonded to
     O3'(i) (1.60 A, C3'-O3'-P 119.7 deg, epsilon/zeta as given) with O3'(i) on
-    P's free tetrahedral position.
+    P's free tetrahedral position.  The defaults (epsilon -135, zeta 165) are
+    not B- or A-form: with the templates' rigid sugar/backbone torsions they
+    are the (15-degree scan) pair that keeps every non-bonded inter-nucleotide
+    heavy-atom distance >= 2.9 A for DNA and RNA alike (B-form -169/-108 gives
+    2.6 / 2.3 A contacts).
     """
     out: list[AtomRec] = []
     prev = None
@@ -717,21 +947,19 @@ def waters(
     min_dist from every atom of `around` and from each other, drawn (with rng,
     else the first in grid order) from the shell [min_dist, min_dist+shell]
     around the solute.  near= an atom (or xyz): the FIRST water is put at
-    near_dist from it, in the direction of largest clearance, so that it can
-    hydrogen-bond; it is still >= near_dist from everything else."""
+    near_dist from it, in the direction (of 400 on a Fibonacci sphere) that
+    maximises its distance to every other atom of `around`, so that it can
+    hydrogen-bond to that atom only."""
     base = coords(around)
     placed: list[np.ndarray] = []
     if near is not None and n > 0:
         c = near.xyz if isinstance(near, AtomRec) else np.asarray(near, float)
+        rest = base[np.sqrt(((base - c) ** 2).sum(axis=1)) > 1e-6] if len(base) else base
         best = None
         for u in _fib_sphere(400):
             p = c + near_dist * u
-            d = np.sqrt(((base - p) ** 2).sum(axis=1)) if len(base) else np.array([math.inf])
-            # ignore the target atom itself
-            d = d[d > near_dist + 1e-9] if (d > near_dist + 1e-9).any() else np.array([math.inf])
-            others = np.sqrt(((base - p) ** 2).sum(axis=1)) if len(base) else np.array([math.inf])
-            m = float(np.sort(others)[1]) if len(others) > 1 else math.inf
-            if best is None or m > best[0]:
+            m = float(np.sqrt(((rest - p) ** 2).sum(axis=1)).min()) if len(rest) else math.inf
+            if best is None or m > best[0] + 1e-12:
                 best = (m, p)
         placed.append(best[1])
     if len(placed) < n:
@@ -743,7 +971,10 @@ def waters(
             ax = [np.arange(lo[k], hi[k] + 1e-9, min_dist) for k in range(3)]
             grid = np.stack(np.meshgrid(*ax, indexing="ij"), axis=-1).reshape(-1, 3)
             if len(base):
-                d = np.sqrt(((grid[:, None, :] - base[None, :, :]) ** 2).sum(axis=2)).min(axis=1)
+                d = np.concatenate([
+                    np.sqrt(((grid[k:k + 256, None, :] - base[None, :, :]) ** 2).sum(axis=2)).min(axis=1)
+                    for k in range(0, len(grid), 256)
+                ]) if len(grid) else np.zeros(0)
                 grid = grid[(d >= min_dist) & (d <= min_dist + shell)]
             order = rng.permutation(len(grid)) if rng is not None else np.arange(len(grid))
             for j in order:
@@ -914,43 +1145,80 @@ def pack_against(atoms_a: Sequence[AtomRec], atoms_b: Sequence[AtomRec], gap: fl
 
 def geometry_report(atoms: Sequence[AtomRec], *, cyclic: bool = False) -> dict:
     """Sanity numbers of a built structure (heavy atoms only):
-    peptide_cn: list of consecutive C-N distances within each chain,
-    o3_p: list of consecutive O3'-P distances,
-    min_interresidue: smallest distance between heavy atoms of different
-      residues, not counting the bonded C-N / O3'-P / SG-SG pairs,
-    min_pair: the two atoms realising it,
-    chirality: {reskey: sign} of (N-CA)x(C-CA).(CB-CA) (L-amino acids: +1)."""
+    peptide_cn        consecutive C-N distances (< 1.7 A apart counts as a link)
+    o3_p              consecutive O3'-P distances
+    min_interresidue  smallest distance between heavy atoms of different
+                      residues, not counting the bonded C-N / O3'-P / SG-SG pairs
+    min_pair          the two atoms realising it
+    min_nonbonded     same, additionally not counting the 1-3 pairs across a
+                      link (CA/O/OXT(i)-N(i+1), C(i)-CA/CD(i+1); C3'/O3'(i)-P/
+                      OP1/OP2/O5'(i+1); CB-SG' of a disulfide)
+    nonbonded_pair    the two atoms realising it
+    chirality         {reskey: sign} of (N-CA)x(C-CA).(CB-CA) (L-amino acids: +1)
+    `cyclic` also treats last -> first residue of the list as consecutive."""
     res = [r for r in residues_of(_heavy(atoms))]
-    cn, op = [], []
-    bonded = set()
-    for k in range(len(res) - 1 + (1 if cyclic else 0)):
-        r1, r2 = res[k], res[(k + 1) % len(res)]
-        if r1[0].chain != r2[0].chain:
-            continue
-        m1 = {a.name: a for a in r1}
-        m2 = {a.name: a for a in r2}
-        if "C" in m1 and "N" in m2 and "CA" in m1 and "CA" in m2:
-            cn.append(float(np.linalg.norm(m1["C"].xyz - m2["N"].xyz)))
-            bonded.add((id(m1["C"]), id(m2["N"])))
-        if "O3'" in m1 and "P" in m2:
-            op.append(float(np.linalg.norm(m1["O3'"].xyz - m2["P"].xyz)))
-            bonded.add((id(m1["O3'"]), id(m2["P"])))
-    best = (math.inf, None, None)
     xs = [coords(r) for r in res]
-    for i in range(len(res)):
-        for j in range(i + 1, len(res)):
+    names = [[a.name for a in r] for r in res]
+    cn, op = [], []
+    ex12: dict[tuple[int, int], list[tuple[str, str]]] = {}
+    ex13: dict[tuple[int, int], list[tuple[str, str]]] = {}
+    nres = len(res)
+    for k in range(nres - 1 + (1 if cyclic and nres > 2 else 0)):
+        i, j = k, (k + 1) % nres
+        if res[i][0].chain != res[j][0].chain:
+            continue
+        m1 = {a.name: a.xyz for a in res[i]}
+        m2 = {a.name: a.xyz for a in res[j]}
+        key = (min(i, j), max(i, j))
+        sw = i > j  # pair stored as (name in lower index, name in higher index)
+
+        def put(dct, a, b, key=key, sw=sw):
+            dct.setdefault(key, []).append((b, a) if sw else (a, b))
+
+        if "C" in m1 and "N" in m2 and "CA" in m1 and "CA" in m2:
+            d = float(np.linalg.norm(m1["C"] - m2["N"]))
+            cn.append(d)
+            if d < 1.7:
+                put(ex12, "C", "N")
+                for a in ("CA", "O", "OXT"):
+                    put(ex13, a, "N")
+                put(ex13, "C", "CA")
+                if "CD" in m2 and np.linalg.norm(m2["CD"] - m2["N"]) < 1.7:
+                    put(ex13, "C", "CD")
+        if "O3'" in m1 and "P" in m2:
+            d = float(np.linalg.norm(m1["O3'"] - m2["P"]))
+            op.append(d)
+            if d < 2.0:
+                put(ex12, "O3'", "P")
+                put(ex13, "C3'", "P")
+                for b in ("OP1", "OP2", "O1P", "O2P", "O5'"):
+                    put(ex13, "O3'", b)
+    best = (math.inf, None, None)
+    best_nb = (math.inf, None, None)
+    for i in range(nres):
+        for j in range(i + 1, nres):
             d = np.sqrt(((xs[i][:, None, :] - xs[j][None, :, :]) ** 2).sum(axis=2))
-            for p in range(len(res[i])):
-                for q in range(len(res[j])):
-                    a, b = res[i][p], res[j][q]
-                    if (id(a), id(b)) in bonded or (id(b), id(a)) in bonded:
-                        d[p, q] = math.inf
-                    elif a.name == "SG" and b.name == "SG":
-                        d[p, q] = math.inf
+            ss = "SG" in names[i] and "SG" in names[j] and \
+                d[names[i].index("SG"), names[j].index("SG")] < 2.5
+            l12 = list(ex12.get((i, j), []))
+            l13 = list(ex13.get((i, j), []))
+            if ss:
+                l12.append(("SG", "SG"))
+                l13 += [("CB", "SG"), ("SG", "CB")]
+            for a, b in l12:
+                if a in names[i] and b in names[j]:
+                    d[names[i].index(a), names[j].index(b)] = math.inf
             m = float(d.min())
             if m < best[0]:
                 p, q = np.unravel_index(int(d.argmin()), d.shape)
                 best = (m, res[i][p], res[j][q])
+            for a, b in l13:
+                if a in names[i] and b in names[j]:
+                    d[names[i].index(a), names[j].index(b)] = math.inf
+            m = float(d.min())
+            if m < best_nb[0]:
+                p, q = np.unravel_index(int(d.argmin()), d.shape)
+                best_nb = (m, res[i][p], res[j][q])
     chir = {}
     for r in res:
         m = {a.name: a.xyz for a in r}
@@ -962,6 +1230,8 @@ def geometry_report(atoms: Sequence[AtomRec], *, cyclic: bool = False) -> dict:
         "o3_p": op,
         "min_interresidue": best[0],
         "min_pair": (best[1], best[2]),
+        "min_nonbonded": best_nb[0],
+        "nonbonded_pair": (best_nb[1], best_nb[2]),
         "chirality": chir,
     }
 
@@ -1077,16 +1347,31 @@ def to_cif(atoms, *, data_name: str = "BUILT", hetatm_for: Sequence[str] = ("HOH
     no insertion-code item: icodes are lost and 4-character atom names shift the
     line (that is the code's behaviour, not the writer's)."""
     out = [f"data_{data_name}", "#"]
-    out += [
-        f"_entry.id {data_name}", "#",
-        "_struct_keywords.entry_id " + data_name,
-        "_struct_keywords.pdbx_keywords 'SYNTHETIC'",
-        "_struct_keywords.text 'synthetic'", "#",
-        "_pdbx_database_status.entry_id " + data_name,
-        "_pdbx_database_status.recvd_initial_deposition_date 2000-01-01", "#",
-        "_struct.entry_id " + data_name,
-        "_struct.title 'synthetic structure'", "#",
+    one = [
+        ("entry", [("id", data_name[:4])]),
+        ("struct_keywords", [("entry_id", data_name[:4]), ("pdbx_keywords", "'DE NOVO PROTEIN'"),
+                             ("text", "'synthetic structure'")]),
+        ("pdbx_database_status", [("entry_id", data_name[:4]),
+                                  ("recvd_initial_deposition_date", "2000-01-01")]),
+        ("struct", [("entry_id", data_name[:4]), ("title", "'synthetic structure built from templates'")]),
+        ("entity", [("id", "1"), ("type", "polymer"), ("pdbx_description", "'synthetic'")]),
+        ("exptl", [("entry_id", data_name[:4]), ("method", "'THEORETICAL MODEL'")]),
+        ("audit_author", [("name", "'Builder, A.'"), ("pdbx_ordinal", "1")]),
+        ("cell", [("entry_id", data_name[:4]), ("length_a", "1.000"), ("length_b", "1.000"),
+                  ("length_c", "1.000"), ("angle_alpha", "90.00"), ("angle_beta", "90.00"),
+                  ("angle_gamma", "90.00"), ("Z_PDB", "1")]),
+        ("symmetry", [("entry_id", data_name[:4]), ("space_group_name_H-M", "'P 1'")]),
+        ("atom_sites", [("entry_id", data_name[:4])]
+         + [(f"fract_transf_matrix[{i}][{j}]", "1.000000" if i == j else "0.000000")
+            for i in (1, 2, 3) for j in (1, 2, 3)]
+         + [(f"fract_transf_vector[{i}]", "0.00000") for i in (1, 2, 3)]),
+        ("database_PDB_matrix", [("entry_id", data_name[:4])]
+         + [(f"origx[{i}][{j}]", "1.000000" if i == j else "0.000000")
+            for i in (1, 2, 3) for j in (1, 2, 3)]
+         + [(f"origx_vector[{i}]", "0.00000") for i in (1, 2, 3)]),
     ]
+    for cat, items in one:
+        out += [f"_{cat}.{k} {v}" for k, v in items] + ["#"]
     out += ["loop_"] + [
         "_atom_site." + k
         for k in (
@@ -1142,20 +1427,25 @@ class _ListHandler(logging.Handler):
 
 @contextlib.contextmanager
 def capture_pdb2pqr_log(level: int = logging.WARNING):
-    """Temporarily collect records of the 'pdb2pqr' logger tree at `level`+
-    (nothing is propagated to the root handlers meanwhile)."""
-    lg = logging.getLogger("pdb2pqr")
+    """Temporarily collect records at `level`+ of the 'pdb2pqr' logger tree AND
+    of pdb2pqr.main's own logger (which is named 'PDB2PQR<version>', outside
+    that tree).  Nothing is propagated to the root handlers meanwhile."""
+    from pdb2pqr import main as pmain
+
     h = _ListHandler(level)
-    old = (lg.level, lg.propagate)
-    lg.addHandler(h)
-    lg.setLevel(level)
-    lg.propagate = False
+    loggers = [logging.getLogger("pdb2pqr"), pmain._LOGGER]
+    old = [(lg.level, lg.propagate) for lg in loggers]
+    for lg in loggers:
+        lg.addHandler(h)
+        lg.setLevel(level)
+        lg.propagate = False
     try:
         yield h.records
     finally:
-        lg.removeHandler(h)
-        lg.setLevel(old[0])
-        lg.propagate = old[1]
+        for lg, (lv, pr) in zip(loggers, old):
+            lg.removeHandler(h)
+            lg.setLevel(lv)
+            lg.propagate = pr
 
 
 def run_pdb2pqr(pdb_text: str, args: Sequence[str], *, workdir, log_level: int = logging.WARNING,
